@@ -243,7 +243,7 @@ def run(tier, seed):
             kind = "no-result" if ev["null"] else ("escape:" + ",".join(sorted(set(ev["diag"]) & {"unknown_token", "parser_failed", "syntax_error"})) if set(ev["diag"]) & {"unknown_token", "parser_failed", "syntax_error"} else "empty-rendering")
             key = "%s:%s" % (kind, docs.FMTNAME[ev["fmt"]])
             if kind == "empty-rendering" and not (ev["nonblank"] and ev["len"] <= 1) and ev.get("seq"):
-                short = sorted(w for w in WORDS if ev["cnt"].get(w, 0) < len([k for k, i in enumerate(ev["seq"]) if table[i - 1]["w"] == w and not (w == "cap" and k + 1 < len(ev["seq"]) and table[ev["seq"][k + 1] - 1]["t"] == "===")]))
+                short = sorted(w for w in WORDS if ev["cnt"].get(w, 0) < len([k for k, i in enumerate(ev["seq"]) if table[i - 1]["w"] == w and not (w == "cap" and k + 1 < len(ev["seq"]) and table[ev["seq"][k + 1] - 1]["t"] in ("===", "---"))]))
                 key = "dropped-line:%s:%s:%s" % (docs.FMTNAME[ev["fmt"]], "compat" if ev["ext"] & 1 else "mmd", "+".join(short))
         elif ev["e"] == "exit":
             key = "exit-from-library"
